@@ -2,7 +2,9 @@
 virtual time (harness/vtime.py) by op scripts.  One output string per script line.
 
 Script lines (numbers are rationals `p/q`; seconds are relative to the start of the case):
-  task <id> <F|R> <beh> | <beh> | ...   behaviour of the k-th awake: op atoms then a result atom
+  task <id> <F|R|P> <beh> | <beh> | ... behaviour of the k-th awake: op atoms then a result atom
+                                          (F: a Function object, R: a Routine, P: a plain Python function — every
+                                          sched call wraps it in a new Function, i.e. every call is its own task)
         op atoms:  !                      the task stops here in the middle of its step (holding the lock)
                                           until `resume`; meanwhile only `adv`, `dump` and `op o <clk> s|q|c`
                                           may follow (these calls block on the lock and complete after the
@@ -13,7 +15,7 @@ Script lines (numbers are rationals `p/q`; seconds are relative to the start of 
                    <clk>:T:<v>            clk.tempo = v
                    <clk>:E:<v>            clk.etempo(v)
                    +:<dt>                 the task takes dt of physical time
-        result:    r:<delta> (return/yield a number) | d (return None / end) | x (raise) |
+        result:    r:<delta> (return/yield a number; ri:<int> an IntEnum member, rf:<delta> a float subclass) | d (return None / end) | x (raise) |
                    n (a str) | bt (True) | bf (False) | o (an object): only a number re-schedules
   new <i> <rate> [p]                     t<i> = TempoClock(rate); p: t<i>.permanent = True
   cmdp                                   CmdPeriod.run() (servers untouched): clears every clock, stops the
@@ -41,6 +43,20 @@ _S = {}
 
 class TaskFailure(Exception):
     pass
+
+
+class Seconds(float):
+    """a float subclass (a 'unit' type): still a number for the clocks"""
+
+
+def delta_value(res):
+    kind, _, v = res.partition(':')
+    if kind == 'ri':
+        import enum
+        return enum.IntEnum('Beats', {'n': int(v)}).n
+    if kind == 'rf':
+        return Seconds(num(v))
+    return num(v)
 
 
 NONNUM = {'n': lambda: 'str', 'bt': lambda: True, 'bf': lambda: False, 'o': object}
@@ -182,11 +198,36 @@ class Case:
                 case.atom(a)
             return res
 
+        def observe(clock):
+            k = case.cname(clock)
+            n = case.awakes.get(tid, 0) + 1
+            case.awakes[tid] = n
+            if n > WATCHDOG:             # break the loop: raising means "not re-scheduled"
+                if n == WATCHDOG + 1:
+                    case.vt.log.append(('spin', k, tid))
+                raise RuntimeError(f'watchdog task{tid}')
+            case.vt.log.append(('awake', k, tid, clock.seconds - case.base,
+                                clock.beats - case.off(k), case.vt.now - case.base))
+
+        if kind == 'P':
+            def pf(self_, clock):
+                observe(clock)
+                res = perform(clock)
+                if res[0] == 'r':
+                    return delta_value(res)
+                if res == 'x':
+                    raise EXC[tid % len(EXC)](f'task{tid}')
+                if res in NONNUM:
+                    return NONNUM[res]()
+                return None
+            pf.__qualname__ = f'task{tid}'
+            self.tasks[tid] = pf          # plain: sc3 wraps it at every sched call
+            return
         if kind == 'F':
             def f(self_, clock):
                 res = perform(clock)
                 if res[0] == 'r':
-                    return num(res[2:])
+                    return delta_value(res)
                 if res == 'x':
                     raise EXC[tid % len(EXC)](f'task{tid}')
                 if res in NONNUM:
@@ -200,7 +241,7 @@ class Case:
                     _, clock = inval
                     res = perform(clock)
                     if res[0] == 'r':
-                        inval = yield num(res[2:])
+                        inval = yield delta_value(res)
                     elif res == 'x':
                         raise EXC[tid % len(EXC)](f'task{tid}')
                     elif res in NONNUM:
@@ -212,15 +253,7 @@ class Case:
         inner = obj.__awake__
 
         def awake(clock):                # observe every awake, also of a Routine that has ended
-            k = case.cname(clock)
-            n = case.awakes.get(tid, 0) + 1
-            case.awakes[tid] = n
-            if n > WATCHDOG:             # break the loop: raising means "not re-scheduled"
-                if n == WATCHDOG + 1:
-                    case.vt.log.append(('spin', k, tid))
-                raise RuntimeError(f'watchdog task{tid}')
-            case.vt.log.append(('awake', k, tid, clock.seconds - case.base,
-                                clock.beats - case.off(k), case.vt.now - case.base))
+            observe(clock)
             return inner(clock)
         obj.__awake__ = awake
         self.tasks[tid] = obj
@@ -353,7 +386,7 @@ class Case:
             c = self.clocks[k]
             q = c._scheduler.queue if k == 'a' else c._task_queue
             tid = {id(t): i for i, t in self.tasks.items()}
-            items = [f'{fr(p - self.off(k))}:{tid.get(id(t), -1)}' for p, t in q]
+            items = [f'{fr(p - self.off(k))}:{tid.get(id(t), tid.get(id(getattr(t, "func", None)), -1))}' for p, t in q]
             out.append(f'{k}[' + ','.join(items) + ']')
         return ' '.join(out)
 
